@@ -155,3 +155,25 @@ Example ctor_held_code :
   exists s, orun false oinit (ctor_held_schedule true) = Some s /\
             ocloser s = OClosed /\ starts s = [PErr] /\ regs s = 0 /\ readers s = 0.
 Proof. eexists. split; [vm_compute; reflexivity|]. repeat split. Qed.
+
+Lemma count_pp_ge f l i x : nth_error l i = Some x -> f x = true -> 1 <= count_pp f l.
+Proof.
+  revert i; induction l as [|z r IH]; intros [|i] H Hf; cbn in *; try discriminate.
+  - inversion H; subst. rewrite Hf. lia.
+  - specialize (IH _ H Hf). lia.
+Qed.
+
+(* the [pred]s of nodeDelete never meet a zero counter *)
+Theorem start_close_no_underflow acts s i p :
+  orun false oinit acts = Some s -> nth_error (starts s) i = Some p ->
+  match p with
+  | PBound => 1 <= regs s /\ 1 <= bounds s /\ 1 <= readers s
+  | PCtor => 1 <= regs s /\ 1 <= readers s
+  | _ => True
+  end.
+Proof.
+  intros R Hp. pose proof (orun_inv _ _ _ OInv_init R) as [Rg Bd Rd _ _].
+  destruct p; auto.
+  - pose proof (count_pp_ge is_ctor _ _ _ Hp eq_refl). lia.
+  - pose proof (count_pp_ge is_bound _ _ _ Hp eq_refl). lia.
+Qed.
